@@ -5,15 +5,16 @@ from common import Report, log
 
 MANIFEST = dict(
     technique='Coq proof over a faithful model of pkg/gosqlx/extract.go on query trees traversed with the regenerated Children() table (instance lemma by vm_compute) + reference-grammar specification (what a generator wrote) + model-vs-implementation correspondence on reflected real trees + generator-knowledge oracle',
-    text='Theorems C15_tables_exact / columns_exact / functions_exact / *_qualified_exact / no_alias_no_synthetic are proved for EVERY statement of the reference grammar (any nesting of sub-queries, CTEs, set operations, joins, DML targets, MERGE), C15_dedup and C15_collect_visits_linear for every tree; the model is tied to the code on every run by (i) the Children() table regenerated for C14 (every slot a prescribed tree uses must be returned), (ii) evaluation of the model on the reflective dump of real parsed trees against the real ExtractX output, (iii) prescribed tree = real parsed tree for generated statements. An implementation-side oracle checks exact set equality against what the generator placed (every table position incl. grafted UPDATE..FROM / DELETE..USING / MERGE sub-query sources, depth <= 4, decoys, duplicates, layouts), duplicate-freeness, ExtractMetadata agreement, tree immutability and a per-call time budget.',
-    note=common.BASE_NOTE + "C15: the reference grammar is a subset of SQL (listed in design/C15.md); statements outside it are covered by the correspondence only. CTE names referenced in FROM count as written table positions (prescribed). Unicode case mapping of names is not modelled.",
+    text='Theorems C15_tables_exact / columns_exact / functions_exact / *_qualified_exact / no_alias_no_synthetic are proved for EVERY statement of the reference grammar (any nesting and ANY DEPTH - structural induction, no bound - of sub-queries, CTEs, set operations, joins, DML targets, MERGE, and the statements that carry a query or an expression without being queries: CREATE [OR REPLACE] VIEW / MATERIALIZED VIEW ... AS query, CREATE INDEX ... WHERE, CREATE TABLE with DEFAULT / CHECK, EXPLAIN query; the names such a statement defines or designates are not positions), C15_dedup and C15_collect_visits_linear for every tree; the model is tied to the code on every run by (i) the Children() table regenerated for C14 (every slot a prescribed tree uses must be returned), (ii) evaluation of the model on the reflective dump of real parsed trees against the real ExtractX output, (iii) prescribed tree = real parsed tree for generated statements, (iv) both correspondences also on flat operator chains of 160 (quick) / 400 (thorough) operands (OR, AND, +, ||, UNION ALL; distinct names in the first operands, every layout), which are trees as deep as they are long. C15_explain_query_dropped_refuted records the defect the extended grammar exposed (EXPLAIN query: the parser dropped the query; repaired in /repo c61589e). An implementation-side oracle checks exact set equality against what the generator placed (every table position incl. grafted UPDATE..FROM / DELETE..USING / MERGE sub-query sources, depth <= 4, decoys, duplicates, layouts), duplicate-freeness, ExtractMetadata agreement, tree immutability and a per-call time budget.',
+    note=common.BASE_NOTE + "C15: the reference grammar is a subset of SQL (listed in design/C15.md); statements outside it are covered by the correspondence only. Names a DDL statement defines or designates (view / index / table name, view column list, index keys and indexed table, column definitions) are not table / column positions (decision, design/C15.md). CTE names referenced in FROM count as written table positions (prescribed). Unicode case mapping of names is not modelled.",
     design='6/C15')
 
 BUDGET_NS = 400_000_000     # per extraction call; the repaired collectors need microseconds
 THEOREMS = ["Props.C15.C15_tables_exact", "Props.C15.C15_columns_exact", "Props.C15.C15_functions_exact",
             "Props.C15.C15_tables_qualified_exact", "Props.C15.C15_columns_qualified_exact",
             "Props.C15.C15_no_alias_no_synthetic", "Props.C15.C15_dedup", "Props.C15.C15_collect_visits_linear",
-            "Props.C15.C15_traversal_complete", "Props.C15.C15_collect_visits_exponential_refuted"]
+            "Props.C15.C15_traversal_complete", "Props.C15.C15_collect_visits_exponential_refuted",
+            "Props.C15.C15_explain_query_dropped_refuted"]
 
 # keyword decoys the reference grammar does not contain (niladic keyword functions): oracle only
 KEYWORD_DECOYS = [
@@ -53,6 +54,8 @@ def oracle(r, want):
     bad = []
     if r.get("panic"):
         return ["panic"]
+    if r.get("timed_out"):
+        return ["time:>%dms (the extraction calls did not return; abandoned)" % (r["max_ns"] // 1_000_000)]
     got_qc = sorted({(q[1], q[2]) for q in r["qcolumns"]})
     if any(q[0] for q in r["qcolumns"]):
         bad.append("qcolumns:schema-set")
@@ -128,6 +131,23 @@ def run_harness(inputs, rp, tag):
     return res
 
 
+def witness_regressions(rp):
+    """replay the witnesses of known_findings.d/C15.json on the implementation: a fixed one must pass"""
+    for k in common.known_findings("C15"):
+        w = k.get("witness")
+        if not w or "sql" not in w:
+            continue
+        wr = run_harness([dict(w, id=0)], rp, "witness")
+        if not wr or not wr[0]["accepted"]:
+            continue
+        fails = oracle(wr[0], w["want"])
+        if k["status"] == "fixed" and fails:
+            rp.violation({"kind": "regression", "known_key": k["key"], "input": w, "failure": fails,
+                          "explanation": "a defect recorded as fixed is back"}, "regression_" + k["key"])
+        if k["status"] == "known" and not fails:
+            rp.cov["notes"].append("stale known finding (witness passes now): " + k["key"])
+
+
 def run(tier):
     rp = Report("C15", tier)
     rng = random.Random(common.seed())
@@ -141,6 +161,8 @@ def run(tier):
                 rp, ["theories/Inst/Inst_C15.vo", "theories/Proofs/ExtractP.vo", "theories/Model/QCase.vo"],
                 "theories/Props/C15.v", THEOREMS, inst_names=["Inst_C15.em_covers_ok"])
     except common.StageError as e:
+        if e.stage == "qslots":         # a modelled node type / field is gone: is a repaired defect back?  (failing input for the report)
+            witness_regressions(rp)
         return common.stage_fail(rp, e)
     known = {json.dumps(k["signature"], sort_keys=True): k for k in common.known_findings("C15") if k.get("status") == "known"}
 
@@ -176,8 +198,9 @@ def run(tier):
     # chain of k operands is a tree of depth k although nothing is nested in the text (no nesting limit applies): names
     # written in the first operands sit deepest
     kk = 160 if quick else 450
+    late = []       # flat chains go LAST: a traversal that re-visits sub-trees never returns on them (harness deadline, the rest is skipped)
     def wide(shape, sql, tables, columns, functions):
-        decoys.append({"sql": sql, "shape": "flat_chain:" + shape, "nodump": True,
+        late.append({"sql": sql, "shape": "flat_chain:" + shape, "nodump": True,
                        "want": {"tables": tables, "columns": columns, "qcolumns": [["", c] for c in columns], "functions": functions}})
     wide("union_all", "SELECT k1 FROM s1.t4 UNION ALL SELECT Price FROM s2.t5" + " UNION ALL SELECT a FROM t1" * kk,
          ["s1.t4", "s2.t5", "t1"], ["k1", "Price", "a"], [])
@@ -185,8 +208,23 @@ def run(tier):
     wide("or", "SELECT a FROM t1 WHERE lower(name) = 'x' OR k1 = 1" + " OR a = 1" * kk, ["t1"], ["a", "name", "k1"], ["lower"])
     wide("plus", "SELECT f(id) + amount" + " + a" * kk + " FROM t1", ["t1"], ["id", "amount", "a"], ["f"])
     wide("concat", "SELECT g(name) || c" + " || a" * kk + " FROM t1", ["t1"], ["name", "c", "a"], ["g"])
+    # the same chains as statements of the reference grammar (qgen.flat_chain: distinct names in the first operands),
+    # in every layout: oracle here, and below the MODEL correspondences on them (never sampled away, no size limit)
+    kc = 160 if quick else 400
+    chains = []                 # (kind, stmt, layout index, harness input)
+    for kind in qgen.CHAIN_KINDS:
+        st = qgen.flat_chain(kind, kc)
+        for li, L in enumerate(lays):
+            d = qgen.harness_input(st, L)
+            if li == 0:
+                d["sql"] = d["sql"].replace(" OR ", "\n OR ").replace(" AND ", "\n AND ").replace(" UNION ", "\n UNION ")   # the tokenizer is quadratic in line length
+            d["want"] = qgen.written(st)
+            d["want"]["qcolumns"] = [list(x) for x in d["want"]["qcolumns"]]
+            d["shape"] = "flat_chain_ref:" + kind
+            chains.append((kind, st, li, d))
+    late += [d for _, _, _, d in chains]
     corpus = sqlgen.corpus_statements() + sqlgen.generated_statements(rng, 300 if quick else 4000) + sqlgen.SPECIAL
-    inputs = [d for _, _, d in ref] + decoys + [{"sql": s} for s in corpus]
+    inputs = [d for _, _, d in ref] + decoys + [{"sql": s} for s in corpus] + late
     for i, d in enumerate(inputs):
         d["id"] = i
     res = run_harness(inputs, rp, "main")
@@ -198,7 +236,12 @@ def run(tier):
     # ---- oracle on generator statements (independent of the model) ----
     shapes, failures, rejected = set(), [], 0
     stats = {"tables_max": 0, "depth_graft": 0, "layouts": len(lays), "accepted_ref": 0}
+    skipped = {r["id"] for r in res if not r["accepted"] and (r.get("err") or "").startswith("skipped")}
+    if skipped:
+        rp.cov["notes"].append("%d inputs skipped by the harness after an extraction exceeded its deadline" % len(skipped))
     for (st, li, d), r in zip(ref, res[:n_ref_in]):
+        if r["id"] in skipped:
+            continue
         if not r["accepted"]:
             rejected += 1
             continue
@@ -209,8 +252,10 @@ def run(tier):
         shapes.add(json.dumps([d["want"]["tables"], d["want"]["qcolumns"], d["want"]["functions"], st[0]]))
         for f in oracle(r, d["want"]):
             failures.append((d, r, f))
-    for d, r in zip(decoys, res[n_ref_in:n_ref_in + len(decoys)]):
-        if d["shape"].startswith("flat_chain:") and not r["accepted"]:
+    for d, r in list(zip(decoys, res[n_ref_in:n_ref_in + len(decoys)])) + list(zip(late, res[len(res) - len(late):])):
+        if r["id"] in skipped:
+            continue
+        if d["shape"].startswith("flat_chain") and not r["accepted"]:
             failures.append((d, r, "rejected:flat chain of %d operands is not accepted" % kk))
         if r["accepted"]:
             for f in oracle(r, d["want"]):
@@ -240,19 +285,7 @@ def run(tier):
                   not [1 for d, r, f in failures if json.dumps(signature_of(f, d), sort_keys=True) not in known])
 
     # ---- known / fixed witnesses ----
-    for k in common.known_findings("C15"):
-        w = k.get("witness")
-        if not w or "sql" not in w:
-            continue
-        wr = run_harness([dict(w, id=0)], rp, "witness")
-        if not wr or not wr[0]["accepted"]:
-            continue
-        fails = oracle(wr[0], w["want"])
-        if k["status"] == "fixed" and fails:
-            rp.violation({"kind": "regression", "known_key": k["key"], "input": w, "failure": fails,
-                          "explanation": "a defect recorded as fixed is back"}, "regression_" + k["key"])
-        if k["status"] == "known" and not fails:
-            rp.cov["notes"].append("stale known finding (witness passes now): " + k["key"])
+    witness_regressions(rp)
 
     # ---- correspondences, evaluated inside Coq (vm_compute), case files compiled concurrently ----
     # 1: model on the dumped real tree = implementation output
@@ -281,6 +314,21 @@ def run(tier):
             body = PREAMBLE + "Definition cases : list rcase := [\n" + ";\n".join(rcase_term(st, r, tb, unknown) for st, d, r in sh) + "].\n"
             body += "Definition bad := Eval vm_compute in bad_indices (ref_case_ok em) 0%N cases.\nPrint bad.\n"
             jobs.append(("c15_r_%d" % si, body)); owners.append(("r", sh))
+    # flat chains: every chain statement, model on the dump of the real tree (all layouts) and prescribed tree (layout 0)
+    chain_res = res[len(res) - len(chains):]
+    chain_x = [r for (_, _, _, d), r in zip(chains, chain_res) if r["accepted"] and r.get("tree")]
+    chain_r = [(st, d, r) for (_, st, li, d), r in zip(chains, chain_res) if li == 0 and r["accepted"] and len(r.get("tree") or []) == 1]
+    for ci in range(0, len(chain_x), 5):
+        sh = chain_x[ci:ci + 5]
+        body = PREAMBLE + "Definition cases : list xcase := [\n" + ";\n".join(xcase_term(r, tb, unknown) for r in sh) + "].\n"
+        body += "Definition bad := Eval vm_compute in bad_indices (extract_case_ok em) 0%N cases.\nPrint bad.\n"
+        jobs.append(("c15_chain_x_%d" % (ci // 5), body)); owners.append(("x", sh))
+    if chain_r:
+        body = PREAMBLE + "Definition cases : list rcase := [\n" + ";\n".join(rcase_term(st, r, tb, unknown) for st, d, r in chain_r) + "].\n"
+        body += "Definition bad := Eval vm_compute in bad_indices (ref_case_ok em) 0%N cases.\nPrint bad.\n"
+        jobs.append(("c15_chain_r", body)); owners.append(("r", chain_r))
+    rp.cov["flat_chain_model_cases"] = {"operands": kc, "dumped_trees": len(chain_x), "prescribed_trees": len(chain_r),
+                                        "max_nodes": max([r["nodes"] for r in chain_x] or [0])}
     bad_x, bad_r, coq_fail = [], [], None
     if ok_inst:
         for (kind, sh), (okc, outc, errc) in zip(owners, qast.coq_cases_parallel(jobs)):
@@ -295,7 +343,8 @@ def run(tier):
         if coq_fail:
             rp.violation({"kind": "correspondence", "detail": coq_fail}, "cases_coq", no_input=True)
     rp.cov["traces_validated_against_model"] = len(sample)
-    rp.obligation("correspondence: Coq extract_* on the dump of %d real trees = gosqlx.Extract* output" % len(sample), ok_inst and not bad_x and not coq_fail)
+    rp.obligation("correspondence: Coq extract_* on the dump of %d real trees (+ %d flat chains of %d operands, every layout) = gosqlx.Extract* output" % (len(sample), len(chain_x), kc),
+                  ok_inst and not bad_x and not coq_fail and len(chain_x) == len(chains))
     for r in bad_x[:3]:
         d = inputs[r["id"]]
         fails = oracle(r, d["want"]) if "want" in d else None
@@ -305,8 +354,8 @@ def run(tier):
                      "model_mismatch_%d" % len(rp.violations), no_input=not fails)
     if unknown:
         rp.cov["notes"].append("dumped trees use types/edges absent from the C14 tables: %s" % sorted(unknown)[:5])
-    rp.obligation("tie: ast_stmt s = dump(parse(render s)), items s = generator knowledge, model(ast_stmt s) = written, on %d generated statements" % len(refs),
-                  ok_inst and not bad_r and not coq_fail)
+    rp.obligation("tie: ast_stmt s = dump(parse(render s)), items s = generator knowledge, model(ast_stmt s) = written, on %d generated statements + %d flat chains" % (len(refs), len(chain_r)),
+                  ok_inst and not bad_r and not coq_fail and len(chain_r) == len(qgen.CHAIN_KINDS))
     for st, d, r in bad_r[:3]:
         fails = oracle(r, d["want"])
         rp.violation({"kind": "correspondence", "input": {k: d[k] for k in d if k != "id"}, "coq_stmt": qgen.coq_stmt(st), "oracle_failures": fails,
@@ -314,8 +363,8 @@ def run(tier):
                      "ref_mismatch_%d" % len(rp.violations), no_input=not fails)
 
     rp.cov["distinct_nontrivial"] = len(shapes)
-    rp.cov["rule"] = ("reference statements from lib/qgen.py (random.Random(VERIF_SEED)): SELECT/set operations/INSERT VALUES|SELECT/UPDATE(+grafted FROM)/DELETE(+grafted USING)/MERGE(+grafted sub-query source), "
-                      "sub-query and CTE depth 0..4, aliases / string contents / NULL,TRUE as decoys, duplicate names, 4 layouts (keyword case, whitespace, redundant parentheses, optional AS); "
+    rp.cov["rule"] = ("reference statements from lib/qgen.py (random.Random(VERIF_SEED)): SELECT/set operations/INSERT VALUES|SELECT/UPDATE(+grafted FROM)/DELETE(+grafted USING)/MERGE(+grafted sub-query source)/CREATE [OR REPLACE|TEMPORARY] VIEW/CREATE MATERIALIZED VIEW/CREATE [UNIQUE] INDEX ... WHERE/CREATE TABLE with DEFAULT, CHECK/EXPLAIN|DESCRIBE query, "
+                      "sub-query and CTE depth 0..4, aliases / string contents / NULL,TRUE as decoys, duplicate names, DDL names (view / index / table names, view column lists, index keys, column definitions) from pools of their own as decoys, 4 layouts (keyword case, whitespace, redundant parentheses, optional AS); flat OR / AND / + / || / UNION ALL chains of 160|400 operands; "
                       "non-trivial = accepted by the parser and at least one table; distinct = distinct (kind, written table set, column set, function set); "
                       "plus corpus + sqlgen statements for the model correspondence")
     rp.cov.update(stats)
